@@ -133,7 +133,7 @@ func cmdVerify(args []string) {
 			feas = append(feas, solveJob{fr.VC, o, fr.VC.heap0All()})
 		}
 	}
-	dischargeAll(jobs, work, 3, 10, false, 16)
+	dischargeAll(jobs, work, 4, 15, false, 16)
 	dischargeAll(feas, work+"/canary", 2, 2, false, 16)
 	bad := 0
 	for _, fr := range results {
